@@ -186,8 +186,8 @@ def write_replay(pid, payload):
 ESCALATION_BUDGET_S = 300
 
 
-class _Deadline(Exception):
-    pass
+class _Deadline(BaseException):
+    """not an Exception: the oracles' own `except Exception` blocks must not swallow the deadline"""
 
 
 def run_with_deadline(run_fn, fn, tier, seconds):
@@ -197,13 +197,14 @@ def run_with_deadline(run_fn, fn, tier, seconds):
     def on_alarm(signum, frame):
         raise _Deadline()
     old = signal.signal(signal.SIGALRM, on_alarm)
-    signal.alarm(seconds)
+    # repeating: if a handler inside the oracle swallows the first one (`except BaseException`), the next second raises again
+    signal.setitimer(signal.ITIMER_REAL, seconds, 1.0)
     try:
         return run_fn(fn, tier)
     except _Deadline:
         return {"name": fn.__name__, "evaluations": 0, "distinct": 0, "note": f"escalated search stopped after {seconds}s"}
     finally:
-        signal.alarm(0)
+        signal.setitimer(signal.ITIMER_REAL, 0)
         signal.signal(signal.SIGALRM, old)
 
 
